@@ -68,6 +68,7 @@ func NewLab(l *Layout, u *Universe, o LabOptions) (*Lab, error) {
 		}
 		cc, err := graphql_datasource.NewConfiguration(graphql_datasource.ConfigurationInput{
 			Fetch:               &graphql_datasource.FetchConfiguration{URL: "http://" + sg.Name, Method: "POST"},
+			Subscription:        &graphql_datasource.SubscriptionConfiguration{URL: "http://" + sg.Name, UseSSE: true, SSEMethodPost: true},
 			SchemaConfiguration: sc,
 		})
 		if err != nil {
@@ -128,4 +129,38 @@ func (l *Lab) Exec(query, opName string, variables []byte, opts ...engine.Execut
 	}
 	err := l.Engine.Execute(context.Background(), req, &w, opts...)
 	return buf.Bytes(), l.Sim.Log(), err
+}
+
+// FrameWriter records what a subscription (or defer) writer receives.
+type FrameWriter struct {
+	buf       []byte
+	Frames    []string
+	Completes int
+	Errors    []string
+}
+
+func (w *FrameWriter) Write(p []byte) (int, error) { w.buf = append(w.buf, p...); return len(p), nil }
+func (w *FrameWriter) Flush() error {
+	w.Frames = append(w.Frames, string(w.buf))
+	w.buf = nil
+	return nil
+}
+func (w *FrameWriter) Complete()        { w.Completes++ }
+func (w *FrameWriter) Heartbeat() error { return nil }
+func (w *FrameWriter) Error(b []byte)   { w.Errors = append(w.Errors, string(b)) }
+
+// ExecStream runs a subscription (or deferred) operation and returns the frames.
+func (l *Lab) ExecStream(ctx context.Context, query, opName string, variables []byte, opts ...engine.ExecutionOptions) (*FrameWriter, []*Request, error) {
+	l.Sim.Reset()
+	w := &FrameWriter{}
+	req := &graphql.Request{Query: query, OperationName: opName}
+	if len(variables) > 0 {
+		req.Variables = variables
+	}
+	err := l.Engine.Execute(ctx, req, w, opts...)
+	if len(w.buf) > 0 {
+		w.Frames = append(w.Frames, string(w.buf))
+		w.buf = nil
+	}
+	return w, l.Sim.Log(), err
 }
